@@ -682,6 +682,10 @@ func (ev *Eval) call(x *SCall) (sval, error) {
 				return sval{}, err
 			}
 			if _, ok := under(v.Typ).(*types.Interface); !ok {
+				if v.Typ != nil && v.Typ != untypedInt && !isNilVal(v) && payloadIsDirect(v.Typ) {
+					// a value of known dynamic type (the receiver in a refinement obligation)
+					return sval{v: Val{Typ: tagMarker, Comps: []Term{intLit(tagOf(v.Typ))}}}, nil
+				}
 				return sval{}, fmt.Errorf("typeOf of non-interface")
 			}
 			return sval{v: Val{Typ: tagMarker, Comps: []Term{v.Comps[0]}}}, nil
